@@ -235,7 +235,7 @@ type cfgBlock = chk.Block
 // bodyStart returns a Site positioned at the beginning of the loop body.
 func bodyStart(g *chk.Graph, rs *ast.RangeStmt) chk.Site {
 	_, body, _ := g.RangeBlocks(rs)
-	return chk.Site{G: g, B: body, I: 0}
+	return chk.Site{G: g, B: body, I: -1}
 }
 
 // c01OthersLoopOK: in the loop that builds `others`, every iteration whose
